@@ -160,6 +160,48 @@ def run(chk):
         return "n_p samples per key in the key's own range"
     chk.run("C08.R3", f"{MOD}:DataGeneratorParameter.generate_data", {"method": "uniform"}, go_param, construct="parameter samples")
 
+    # ---------------- R3b generators built through their constructors (concrete sizes)
+    # (the constructor must reject nb % (2 dim) != 0)
+    def go_ctor_reject():
+        from ..interp import AbstractRaise
+        try:
+            G.cls("CubicMeshPDEStatio")(key=Sym('key'), n=64, nb=50, omega_batch_size=5, omega_border_batch_size=3, dim=2,
+                                        min_pts=(K('min0'), K('min1')), max_pts=(K('max0'), K('max1')))
+        except AbstractRaise as ar:
+            if isinstance(ar.exc, ValueError):
+                return "nb not a multiple of 2 dim is rejected"
+            raise
+        raise Violation("nb", "nb = 50 accepted for dim = 2", "ValueError (nb must be a multiple of the number of facets)")
+    chk.run("C08.R3", f"{MOD}:CubicMeshPDEStatio.__post_init__", {"nb": 50, "dim": 2}, go_ctor_reject, construct="nb validation")
+
+    def go_ctor_shapes():
+        key = Sym('key')
+        ode = G.cls("DataGeneratorODE")(key, 60, K('tmin'), K('tmax'), 7)
+        expect_axes(ode.fields['times'], (60,), "DataGeneratorODE.times")
+        for cname, extra in (("CubicMeshPDEStatio", {}), ("CubicMeshPDENonStatio", dict(temporal_batch_size=7, tmin=K('tmin'), tmax=K('tmax'), nt=40))):
+            g2 = G.cls(cname)(key=key, n=64, nb=48, omega_batch_size=5, omega_border_batch_size=3, dim=2,
+                              min_pts=(K('min0'), K('min1')), max_pts=(K('max0'), K('max1')), **extra)
+            expect_axes(g2.fields['omega'], (64, 2), f"{cname}.omega")
+            expect_axes(g2.fields['omega_border'], (12, 2, 4), f"{cname}.omega_border")
+            if int(g2.fields['nb']) != 48:
+                raise Violation(f"{cname}.nb", str(g2.fields['nb']), "48")
+            g1 = G.cls(cname)(key=key, n=30, nb=7, omega_batch_size=5, omega_border_batch_size=3, dim=1,
+                              min_pts=(K('min0'),), max_pts=(K('max0'),), **extra)
+            expect_axes(g1.fields['omega'], (30, 1), f"{cname}.omega (1D)")
+            expect_axes(g1.fields['omega_border'], (2,), f"{cname}.omega_border (1D)")
+            if int(g1.fields['nb']) != 2 or int(g1.fields['omega_border_batch_size']) != 2:
+                raise Violation(f"{cname} 1D border sizes", f"nb={g1.fields['nb']} batch={g1.fields['omega_border_batch_size']}", "2 and 2")
+            g0 = G.cls(cname)(key=key, n=30, nb=None, omega_batch_size=5, omega_border_batch_size=None, dim=2,
+                              min_pts=(K('min0'), K('min1')), max_pts=(K('max0'), K('max1')), **extra)
+            if g0.fields['omega_border'] is not None:
+                raise Violation(f"{cname} without border", str(g0.fields['omega_border'])[:80], "None")
+            if extra:
+                expect_axes(g2.fields['times'], (40,), f"{cname}.times")
+        pa = G.cls("DataGeneratorParameter")(key, 36, 4, {"nu": (K('lo'), K('hi'))})
+        expect_axes(pa.fields['param_n_samples']['nu'], (36, 1), "DataGeneratorParameter samples")
+        return "stores built by the constructors have the requested counts and shapes"
+    chk.run("C08.R3", f"{MOD}:__post_init__ of the generators", {}, go_ctor_shapes, construct="constructor store shapes")
+
     # ---------------- R4 grid
     def grid_rule(value, lo, hi, count, what):
         """every arange node inside `value` must be arange(lo_i, hi_i, (hi_i - lo_i) / count)"""
